@@ -161,6 +161,7 @@ struct Run {
   std::vector<CookieCtl> cookie_ctl;
   std::vector<ActiveEv> active_hist;
   int settled_outstanding = 0, settled_zero_transitions = 0;   // requests whose accepting call has returned and that have no callback yet; times that count fell to zero
+  std::map<std::string, std::string> user_set_later;       // settings made through setters after init (key as in the white-box read), e.g. sortlist
   bool user_set_servers = false;                            // the application has set the server list explicitly (init option or setter)
   int files_variant = 0; bool files_changed_since_init = false;   // C16: which rewrite of the system files is on the virtual disk                        // configured server list (indices, configuration order) over time
   int pick_kind(int64_t a) const;
@@ -206,6 +207,7 @@ int peek_queries(const ares_channel_t *ch, struct peek_qinfo *out, int cap);
 size_t peek_num_servers(const ares_channel_t *ch);
 int peek_channel_opts(const ares_channel_t *ch, long *tries, long *timeout_ms, long *maxtimeout_ms, long *ndots, long *rotate);
 size_t peek_full(const ares_channel_t *ch, char *out, size_t cap);
+int peek_reinit_pending(const ares_channel_t *ch);
 }
 
 // allocator ledger
